@@ -556,6 +556,40 @@ def eval_prep(ctx, case):
         deform = None if case["deform"] is None else tuple(case["deform"])
         ign = bool(case["ign"])
         al = Alignment(start, end)
+        if case.get("reuse", (len(case["start"]["atoms"]) + len(str(case.get("restr")))) % 3 == 0):
+            # ONE Alignment object with a history: first a hydrogen-filtered alignment with ANOTHER molecule on the
+            # fixed side (same size, atom names rotated by one: its hydrogens sit at other indexes), then the fixed
+            # side is replaced by the legal route `x = None; x = molecule`, then the call under test.  What reaches
+            # the optimiser must be derived from the molecules held NOW (seed C10-7: list of non-hydrogen atoms
+            # cached on the Alignment the first time and never invalidated).
+            try:
+                fixed_is_start = len(start) >= len(end)
+                spec = dict(case["start"] if fixed_is_start else case["end"])
+                if len(spec["atoms"]) >= 2:
+                    an = [a[2] for a in spec["atoms"]]
+                    an = an[1:] + an[:1]
+                    spec["atoms"] = [[a[0], a[1], n2] for a, n2 in zip(spec["atoms"], an)]
+                    decoy = load(ctx, spec, files)
+                    if fixed_is_start:
+                        al.start = None
+                        al.start = decoy
+                    else:
+                        al.end = None
+                        al.end = decoy
+                    with Recorder(), contextlib.redirect_stdout(io.StringIO()):
+                        try:
+                            al.align_molecules([], deform, True)
+                        except Exception:   # noqa: BLE001  (the decoy run is not the case under test)
+                            pass
+                    if fixed_is_start:
+                        al.start = None
+                        al.start = start
+                    else:
+                        al.end = None
+                        al.end = end
+                    ctx.count("prep:alignment-object-with-history")
+            except Exception:   # noqa: BLE001
+                al = Alignment(start, end)
         mtoks = f"{tok_mol(al.start)} {tok_mol(al.end)}"
         try:
             user = restr if restr is not None else default_user_pairs(al.start, al.end)
